@@ -481,17 +481,29 @@ Definition rresolve (r : rst) (o : sop) : option op :=
   | SDis j => option_map Discard (pick (rpend r) j)
   | SPut j => option_map Put (pick (rplain r) j)
   | SFlush => match rpend r, rplain r with [], [] => Some Flush | _, _ => None end
+  | SRealloc _ => None
   end.
+
+(* def_realloc_caches: a fresh cache; the old one is freed after its cached
+   entries went through the cleanup callback *)
+Definition r_do_realloc (r : rst) (c : nat) : rst * list (nat * nat) :=
+  (rinit c, map (fun e => (e, rref r e)) (r_cleanup_list r)).
 
 Inductive rout :=
 | ROSkip
 | ROStep (o : op) (x : ret) (ev : list (nat * nat)) (r : rst)
 | ROFault (o : op) (f : rfault)
+| RORealloc (c : nat) (ev : list (nat * nat)) (r : rst)
 | RODead.
 
 Fixpoint rrun_slots (r : rst) (ops : list sop) : list rout :=
   match ops with
   | [] => []
+  | SRealloc c :: t =>
+      if (match rpend r, rplain r with [], [] => true | _, _ => false end) && (0 <? c)
+      then RORealloc c (snd (r_do_realloc r c)) (fst (r_do_realloc r c))
+             :: rrun_slots (fst (r_do_realloc r c)) t
+      else ROSkip :: rrun_slots r t
   | o :: t =>
       match rresolve r o with
       | None => ROSkip :: rrun_slots r t
